@@ -9,6 +9,7 @@ import (
 	"flag"
 	"fmt"
 	"io"
+	"os"
 	"strings"
 
 	"github.com/rs/zerolog"
@@ -128,7 +129,9 @@ func main() {
 		}
 	}
 	var handlerLog []error
-	zerolog.ErrorHandler = func(err error) { handlerLog = append(handlerLog, err) }
+	handler := func(err error) { handlerLog = append(handlerLog, err) }
+	zerolog.ErrorHandler = handler
+	noHandler := false // pass without any ErrorHandler: failures go to stderr, everything else must hold all the same
 
 	composition := ""
 	run := func(sh shape, lv []zerolog.Level, direct bool) {
@@ -252,7 +255,7 @@ func main() {
 					}
 				}
 			}
-			for e := 0; e < E && e < len(perEventHandler); e++ {
+			for e := 0; e < E && e < len(perEventHandler) && !noHandler; e++ {
 				var want error
 				for d := 0; d < D && want == nil; d++ {
 					k := kinds[sh[d]]
@@ -299,6 +302,9 @@ func main() {
 			}
 			if composition != "" && !direct {
 				mode = composition
+			}
+			if noHandler {
+				mode += "/no-handler"
 			}
 			r.Eval(fmt.Sprint(mode, sh, lv, out, lg2.String(), len(handlerLog)), faults > 0)
 			if len(fails) > 0 {
@@ -358,6 +364,21 @@ func main() {
 				}
 			}
 		}
+	}
+	// without an ErrorHandler (the library then reports on stderr): the calls return, every destination still gets
+	// every event it should, in order, with identical bytes
+	if devnull, err := os.OpenFile(os.DevNull, os.O_WRONLY, 0); err == nil {
+		realStderr := os.Stderr
+		os.Stderr, zerolog.ErrorHandler, noHandler = devnull, nil, true
+		for _, sh := range shapes2 {
+			for E := 1; E <= 2; E++ {
+				for _, lv := range levelVecs(E, E == 1) {
+					run(sh, lv, false)
+				}
+			}
+		}
+		os.Stderr, zerolog.ErrorHandler, noHandler = realStderr, handler, false
+		devnull.Close()
 	}
 	composition = "plain(multi)"
 	for _, sh := range []shape{{"W"}, {"W", "W"}, {"W", "W", "W"}} {
